@@ -33,22 +33,36 @@ func (o *Orderer) OrderUniverse(u types.Universe) []*types.Type {
 	list := tList{
 		namer: o.Namer,
 	}
-	for _, p := range u {
-		for _, t := range p.Types {
-			list.types = append(list.types, t)
-		}
-		for _, f := range p.Functions {
-			list.types = append(list.types, f)
-		}
-		for _, v := range p.Variables {
-			list.types = append(list.types, v)
-		}
-		for _, v := range p.Constants {
-			list.types = append(list.types, v)
-		}
+	// Collect the entries in a fixed order (packages by path, then each kind of
+	// declaration by name) and sort stably, so that entries which receive the
+	// same name from the namer do not come out in map-iteration order.
+	pkgPaths := make([]string, 0, len(u))
+	for path := range u {
+		pkgPaths = append(pkgPaths, path)
 	}
-	sort.Sort(list)
+	sort.Strings(pkgPaths)
+	for _, path := range pkgPaths {
+		p := u[path]
+		list.types = appendSortedByKey(list.types, p.Types)
+		list.types = appendSortedByKey(list.types, p.Functions)
+		list.types = appendSortedByKey(list.types, p.Variables)
+		list.types = appendSortedByKey(list.types, p.Constants)
+	}
+	sort.Stable(list)
 	return list.types
+}
+
+// appendSortedByKey appends the values of m to list, in the order of their keys.
+func appendSortedByKey(list []*types.Type, m map[string]*types.Type) []*types.Type {
+	keys := make([]string, 0, len(m))
+	for k := range m {
+		keys = append(keys, k)
+	}
+	sort.Strings(keys)
+	for _, k := range keys {
+		list = append(list, m[k])
+	}
+	return list
 }
 
 // OrderTypes assigns a name to every type, and returns a list sorted by those
@@ -58,7 +72,7 @@ func (o *Orderer) OrderTypes(typeList []*types.Type) []*types.Type {
 		namer: o.Namer,
 		types: typeList,
 	}
-	sort.Sort(list)
+	sort.Stable(list)
 	return list.types
 }
 
